@@ -39,26 +39,6 @@ Theorem C14_get_functions_chain : forall (A : Type) (l : list A) (P : Z),
 Proof. exact @get_functions_chain. Qed.
 Print Assumptions C14_get_functions_chain.
 
-(* test_all.get_functions, the shares: every rank but the last gets exactly k rows, where k is the greatest
-   integer <= ceil(N/P) with k (P-1) <= N, and the last rank gets the remaining N - (P-1) k rows. *)
-Theorem C14_get_functions_share : forall (A : Type) (l : list A) (P : Z),
-  1 <= P ->
-  let N := py_len l in
-  exists k, 0 <= k <= - ((- N) / P) /\ k * (P - 1) <= N /\
-    (k = - ((- N) / P) \/ N < (k + 1) * (P - 1)) /\
-    (forall r, 0 <= r < P - 1 -> gf_end l r P - gf_start l r P = k) /\
-    gf_end l (P - 1) P - gf_start l (P - 1) P = N - (P - 1) * k.
-Proof. exact @get_functions_share. Qed.
-Print Assumptions C14_get_functions_share.
-
-(* utils.split_idx, load balance: rank r owns N/P indices plus one when r < N mod P, so any two
-   ranks differ by at most one index and no rank owns more than ceil(N/P). *)
-Theorem C14_split_idx_balanced : forall N P r : Z,
-  0 <= N -> 1 <= P -> 0 <= r < P ->
-  Z.of_nat (length (si_range (split_idx N r P))) = N / P + (if r <? N mod P then 1 else 0).
-Proof. exact split_idx_balanced. Qed.
-Print Assumptions C14_split_idx_balanced.
-
 (* utils.split_idx, pointwise form of the tiling: every index 0 <= i < N is in the range of
    exactly one rank. *)
 Theorem C14_split_idx_unique_owner : forall N P i : Z,
